@@ -57,6 +57,13 @@ func (s *caStub) Sign(ctx context.Context, req *proto.SSHCertificateSigningReque
 	case "err":
 		s.Issued = append(s.Issued, nil)
 		return nil, nil, errors.New("ca stub: scripted failure")
+	case "typederr", "typedconferr":
+		// a signer whose own error is a typed gensign error of ANOTHER stage: the run still failed at the signing stage
+		s.Issued = append(s.Issued, nil)
+		if s.Script[idx] == "typederr" {
+			return nil, nil, gensign.NewErr(gensign.Unknown, errors.New("ca stub: typed failure"))
+		}
+		return nil, nil, gensign.NewError(gensign.HandlerConfErr, "some-handler", errors.New("ca stub: typed configuration failure"))
 	case "panic":
 		s.Issued = append(s.Issued, nil)
 		panic("ca stub: scripted panic")
@@ -163,6 +170,12 @@ func (k *stubAgentKey) AddCertsToAgent(certs []ssh.PublicKey, comments []string)
 	case "err":
 		k.h.fire("AddCertsToAgent:err")
 		return errors.New("stub handler: AddCertsToAgent error")
+	case "typederr":
+		k.h.fire("AddCertsToAgent:typederr")
+		return gensign.NewError(gensign.HandlerGenCSRErr, k.h.name, errors.New("stub handler: AddCertsToAgent failed with a typed error of another stage"))
+	case "typedauth":
+		k.h.fire("AddCertsToAgent:typedauth")
+		return gensign.NewErr(gensign.AllAuthFailed, errors.New("stub handler: AddCertsToAgent failed with a typed error of another stage"))
 	}
 	k.Added = append(k.Added, certs)
 	k.Comments = append(k.Comments, comments)
